@@ -488,3 +488,95 @@ def var_defs(fn, local):
         else:
             out.append((b, fn.rvalue_expr(fn.blocks[b]["s"][i][2])))
     return out
+
+
+# ------------------------------------------------------------------ const-generic sweep
+
+
+def _eval_param_expr(e, env):
+    """Evaluate an expression that depends only on const-generic params/constants, else None."""
+    if e[0] == "const":
+        return e[1]
+    if e[0] == "param":
+        return env.get(e[1])
+    if e[0] == "cast":
+        return _eval_param_expr(e[2], env)
+    if e[0] == "un" and e[1] == "Not":
+        v = _eval_param_expr(e[2], env)
+        return None if v is None else int(not v)
+    if e[0] == "bin":
+        a = _eval_param_expr(e[2], env)
+        b = _eval_param_expr(e[3], env)
+        if a is None or b is None:
+            return None
+        op = e[1]
+        try:
+            return {"Eq": lambda: int(a == b), "Ne": lambda: int(a != b), "Lt": lambda: int(a < b), "Le": lambda: int(a <= b), "Gt": lambda: int(a > b), "Ge": lambda: int(a >= b),
+                    "Add": lambda: a + b, "Sub": lambda: a - b, "Mul": lambda: a * b, "Div": lambda: a // b if b else None, "Rem": lambda: a % b if b else None,
+                    "BitAnd": lambda: a & b, "BitOr": lambda: a | b, "BitXor": lambda: a ^ b, "Shl": lambda: a << b, "Shr": lambda: a >> b}[op]()
+        except KeyError:
+            return None
+    return None
+
+
+def reachable_under(fn, env):
+    """Blocks reachable from entry when const-generic parameters take the values in env (branches
+    whose condition depends only on those parameters are decided, all others taken both ways)."""
+    succ = fn.cfg()[0]
+    seen = set()
+    st = [0]
+    while st:
+        b = st.pop()
+        if b in seen:
+            continue
+        seen.add(b)
+        t = fn.term(b)
+        if t[0] == "sw":
+            v = _eval_param_expr(fn.expr(t[1]), env)
+            if v is not None:
+                tgt = t[3]
+                for val, bb in t[2]:
+                    if val == v:
+                        tgt = bb
+                st.append(tgt)
+                continue
+        if t[0] == "assert":
+            v = _eval_param_expr(fn.expr(t[1]), env)
+            if v is not None and bool(v) != bool(t[2]):
+                continue
+        st.extend(succ[b])
+    return seen
+
+
+def accepted_param_values(fn, param, candidates):
+    """Values of const-generic `param` for which fn can return normally."""
+    ok = []
+    for v in candidates:
+        r = reachable_under(fn, {param: v})
+        if any(fn.term(b)[0] == "ret" for b in r):
+            ok.append(v)
+    return ok
+
+
+def const_index(fn, proj):
+    """Constant value of an index projection ['i', local] / ['c', n, ...], else None."""
+    if proj[0] == "c":
+        return proj[1]
+    if proj[0] == "i":
+        e = fn.local_expr(proj[1])
+        if e[0] == "const":
+            return e[1]
+    return None
+
+
+def array_stores(fn, local):
+    """Stores  local[<const idx>] = value  (also through one field, e.g. n.0[i]): list of (bb, idx, value_expr)."""
+    out = []
+    for b in sorted(fn.reachable()):
+        for s in fn.stmts(b):
+            if s[0] == "=" and s[1][0] == local and s[1][1]:
+                pr = s[1][1]
+                last = pr[-1]
+                if isinstance(last, list) and last[0] in ("i", "c"):
+                    out.append((b, const_index(fn, last), fn.rvalue_expr(s[2])))
+    return out
